@@ -107,8 +107,17 @@ CHECKS["C13"] = dict(engine="HX", ref="4/C13", technique="explicit-state breadth
                           "every kernel-allocated array is compared with the model.",
                      note="Trusted base: the interposer (native/shim.c), CPython reference counting semantics, glibc malloc.")
 
+CHECKS["C14"] = dict(engine="TS", ref="4/C14", technique="stateless model checking of real Python threads: cooperative scheduler "
+                     "(sys.settrace line events as scheduling points, scheduler-aware lock), depth-first enumeration of all "
+                     "schedules under an iterated preemption bound, every execution compared with the sequential results",
+                     text="All interleavings of 2 (3 thorough) concurrent evaluate calls within the preemption bound are "
+                          "executed on the real code for warm/cold cache, same/different problems and a concurrent "
+                          "drop+gc; each schedule is deterministic and replayable from its choice sequence.",
+                     note="Not decided: true parallelism inside GIL-released native code; switches inside one source line. "
+                          "GC is disabled during an execution. Trusted base: the scheduler in vx/ts.py.")
+
 NOT_APPLICABLE = {}
-PENDING = ["C14"]
+PENDING = []
 
 
 def main():
@@ -155,6 +164,8 @@ def main():
              "kind_free_text": "string / tree / sentence explorer for the parsers"},
             {"name": "PX", "path": "vx/checks/c15.py", "serves_properties": ["C15"],
              "kind_free_text": "cache-state search + hash-seed enumeration"},
+            {"name": "TS", "path": "vx/ts.py", "serves_properties": ["C14"],
+             "kind_free_text": "thread-schedule explorer (cooperative scheduler, preemption bounding)"},
             {"name": "HX", "path": "vx/hx.py", "serves_properties": ["C13"],
              "kind_free_text": "history explorer over live cffi objects with a malloc interposer"},
             {"name": "NX", "path": "vx/nx.py", "serves_properties": ["C06"],
